@@ -36,11 +36,6 @@ func vFStrs(m map[string]interface{}, k string) []string {
 	return out
 }
 
-type v12SD struct {
-	S string `json:"s"`
-	E uint64 `json:"e"`
-}
-
 type v12Group struct {
 	Exists bool                          `json:"exists"`
 	Subs   map[string][]string           `json:"subs,omitempty"`
@@ -122,7 +117,6 @@ func v12ErrClass(err error) string {
 
 type v12State struct {
 	Gs    map[string]v12Group `json:"gs"`
-	Pend  map[string][]v12SD  `json:"pend"`
 	Parts map[string]int32    `json:"parts"`
 	Idx   uint64              `json:"idx"`
 }
